@@ -3,8 +3,13 @@
 package server
 
 import (
+	"context"
+	"encoding/json"
 	"net/http"
 
+	proto "github.com/kubewharf/kubebrain-client/api/v2rpc"
+
+	"github.com/kubewharf/kubebrain/pkg/backend"
 	"github.com/kubewharf/kubebrain/pkg/server/service/leader"
 	"github.com/kubewharf/kubebrain/pkg/server/service/revision"
 	"github.com/kubewharf/kubebrain/pkg/zzmodel"
@@ -78,4 +83,61 @@ func VerifC18Status() {
 		zzverif.Assert(len(fb.RevSets) == 0, "a failed sync does not change the follower's revision")
 		zzverif.Cover("refused")
 	}
+}
+
+// VerifC18Takeover: a node built by the real NewServer wiring takes over (it served follower reads
+// before, at an older revision) while a follower asks its /status handler at any moment of the
+// election pass (<= 2 scheduling delays): whenever /status answers 200, the revision it publishes
+// covers everything the previous leader committed — a follower never adopts a stale revision from
+// a node that has only just won the election.
+func VerifC18Takeover() {
+	st := zzmodel.NewStore()
+	elapsed := uint64(0)
+	st.ClockFn = func() uint64 { return 1000 + elapsed }
+	ctx := context.Background()
+	mk := func(id string) (backend.Backend, *server) {
+		be := backend.NewBackend(st, backend.Config{Prefix: "/r", Identity: id, EnableEtcdCompatibility: true, WatchCacheSize: 4}, zzmodel.NoMetrics{})
+		return be, NewServer(be, zzmodel.NoMetrics{}, Config{}).(*server)
+	}
+	oldBe, old := mk("old")
+	go old.leaderElection.Campaign()
+	zzverif.WaitIdle()
+	zzverif.Assert(old.leaderElection.IsLeader(), "first node becomes leader")
+	elapsed += 5
+	cr, err := oldBe.Create(ctx, &proto.CreateRequest{Key: []byte("/r/a"), Value: []byte("v")})
+	zzverif.Assert(err == nil && cr.Succeeded, "old leader: create")
+	stored := cr.Header.Revision
+	zzverif.WaitIdle()
+	newBe, ns := mk("new")
+	if zzverif.Choose("servedFollowerReads", 2) == 1 {
+		newBe.SetCurrentRevision(stored - 1) // what it had adopted from the old leader some time ago
+	}
+	elapsed += 1
+	st.Yield = zzverif.YieldAt
+	done := make(chan struct{}, 2)
+	zzverif.ExploreSchedules(zzverif.Param("preempt", 2))
+	zzverif.Go("campaign", func() {
+		ns.leaderElection.Campaign()
+		done <- struct{}{}
+	})
+	zzverif.Go("follower", func() {
+		w := &vResponse{}
+		ns.GetPeerHttpHandlers()["/status"].ServeHTTP(w, nil)
+		if w.status == 0 || w.status == http.StatusOK {
+			var lr revision.LeaderRevision
+			zzverif.Assert(json.Unmarshal(w.body, &lr) == nil, "/status answers a revision")
+			zzverif.Assert(lr.Revision >= stored, "a node that answers /status publishes a revision that covers everything committed before")
+			zzverif.Cover("status-answered")
+		} else {
+			zzverif.Cover("status-refused")
+		}
+		done <- struct{}{}
+	})
+	<-done
+	<-done
+	zzverif.StopExploring()
+	st.Yield = nil
+	zzverif.WaitIdle()
+	zzverif.Assert(ns.leaderElection.IsLeader(), "second node becomes leader")
+	zzverif.Cover("done")
 }
